@@ -10,6 +10,12 @@ package grandpa
 //                                 -> <total> <threshold> <weight of the k voters> fin=<A|-> ghost=<A|->
 //                                 (fin: Round.State().Finalized, ghost: State().PrevoteGHOST; `A` iff the k voters
 //                                 reach the threshold)
+//        fgrnd w=<w1,w2,..> tree=<p1,p2,..|->|pv <voter> <block>;pc <voter> <block>;...
+//                                 a Round over a block tree (block 0 = base) with WEIGHTED voters; the votes are imported
+//                                 in the given order (a voter with two different votes equivocates)
+//                                 -> ghost=<b|-> fin=<b|-> est=<b|-> comp=<T|F|->   (State() after the last import;
+//                                 est/comp only once the precommit weight has reached the threshold), or `eqv` when
+//                                 the equivocators of a phase outweigh the tolerated weight (nothing is promised then)
 
 import (
 	"fmt"
@@ -48,7 +54,151 @@ func c22Weights(s string) ([]IDWeight[uint32], bool) {
 	return out, len(out) <= 64
 }
 
+// c22TreeChain is a Chain over a parent table; block i is called "b<i>".
+type c22TreeChain struct{ par []int }
+
+func (c c22TreeChain) idx(h string) int {
+	if len(h) < 2 || h[0] != 'b' {
+		return -1
+	}
+	i, err := strconv.Atoi(h[1:])
+	if err != nil || i < 0 || i > len(c.par) {
+		return -1
+	}
+	return i
+}
+
+func (c c22TreeChain) Ancestry(base, block string) ([]string, error) {
+	bi, ki := c.idx(base), c.idx(block)
+	if bi < 0 || ki < 0 {
+		return nil, fmt.Errorf("unknown block")
+	}
+	anc := []string{}
+	for ki != bi {
+		if ki == 0 {
+			return nil, fmt.Errorf("block not descendent of base")
+		}
+		ki = c.par[ki-1]
+		if ki != bi {
+			anc = append(anc, "b"+strconv.Itoa(ki))
+		}
+	}
+	return anc, nil
+}
+
+func (c c22TreeChain) IsEqualOrDescendantOf(base, block string) bool {
+	if base == block {
+		return true
+	}
+	_, err := c.Ancestry(base, block)
+	return err == nil
+}
+
+func (c c22TreeChain) depth(i int) uint32 {
+	d := uint32(0)
+	for i > 0 {
+		i = c.par[i-1]
+		d++
+	}
+	return d
+}
+
+func c22FGRound(line string) string {
+	bar := strings.IndexByte(line, '|')
+	hdr := strings.Fields(line[:bar])
+	if len(hdr) != 3 || !strings.HasPrefix(hdr[1], "w=") || !strings.HasPrefix(hdr[2], "tree=") {
+		return "bad-op"
+	}
+	ws, ok := c22Weights(hdr[1][2:])
+	if !ok {
+		return "bad-op"
+	}
+	var par []int
+	if t := hdr[2][5:]; t != "-" {
+		for i, x := range strings.Split(t, ",") {
+			p, err := strconv.Atoi(x)
+			if err != nil || p < 0 || p > i || x != strconv.Itoa(p) {
+				return "bad-op"
+			}
+			par = append(par, p)
+		}
+	}
+	if len(par) > 12 {
+		return "bad-op"
+	}
+	type op struct {
+		pc   bool
+		v, b int
+	}
+	var ops []op
+	if body := strings.TrimSpace(line[bar+1:]); body != "" {
+		for _, o := range strings.Split(body, ";") {
+			f := strings.Fields(o)
+			if len(f) != 3 || (f[0] != "pv" && f[0] != "pc") {
+				return "bad-op"
+			}
+			v, e1 := strconv.Atoi(f[1])
+			b, e2 := strconv.Atoi(f[2])
+			if e1 != nil || e2 != nil || v < 0 || v >= len(ws) || b < 0 || b > len(par) ||
+				f[1] != strconv.Itoa(v) || f[2] != strconv.Itoa(b) {
+				return "bad-op"
+			}
+			ops = append(ops, op{f[0] == "pc", v, b})
+		}
+	}
+	if len(ops) > 200 {
+		return "bad-op"
+	}
+	vs := NewVoterSet(ws)
+	if vs == nil {
+		return "nil"
+	}
+	chain := c22TreeChain{par}
+	round := NewRound[uint32, string, uint32, int](RoundParams[uint32, string, uint32]{
+		RoundNumber: 1,
+		Voters:      *vs,
+		Base:        HashNumber[string, uint32]{"b0", 0},
+	})
+	for _, o := range ops {
+		h, n := "b"+strconv.Itoa(o.b), chain.depth(o.b)
+		var err error
+		if o.pc {
+			_, err = round.importPrecommit(chain, Precommit[string, uint32]{h, n}, uint32(o.v), o.b)
+		} else {
+			_, err = round.importPrevote(chain, Prevote[string, uint32]{h, n}, uint32(o.v), o.b)
+		}
+		if err != nil {
+			return "err"
+		}
+	}
+	round.update()
+	tolerated := VoteWeight(vs.TotalWeight() - vs.Threshold())
+	if round.context.EquivocationWeight(PrevotePhase) > tolerated ||
+		round.context.EquivocationWeight(PrecommitPhase) > tolerated {
+		return "eqv"
+	}
+	show := func(hn *HashNumber[string, uint32]) string {
+		if hn == nil {
+			return "-"
+		}
+		return hn.Hash
+	}
+	st := round.State()
+	est, comp := "-", "-"
+	if pcW, _ := round.PrecommitParticipation(); pcW >= VoteWeight(vs.Threshold()) && st.PrevoteGHOST != nil {
+		est = show(st.Estimate)
+		comp = "F"
+		if st.Completable {
+			comp = "T"
+		}
+	}
+	return fmt.Sprintf("ghost=%s fin=%s est=%s comp=%s", show(st.PrevoteGHOST), show(st.Finalized), est, comp)
+}
+
 func c22FGRun(line string) string {
+	if strings.HasPrefix(line, "fgrnd ") && strings.IndexByte(line, '|') > 0 {
+		return c22FGRound(line)
+	}
 	f := strings.Fields(line)
 	switch {
 	case len(f) == 2 && f[0] == "fgthr":
@@ -126,6 +276,9 @@ func c22FGGen(r *vhRng) string {
 		}
 		return strings.Join(ws, ","), n
 	}
+	if r.Chance(1, 2) {
+		return c22FGGenRound(r)
+	}
 	switch r.Intn(10) {
 	case 0, 1:
 		if r.Chance(1, 10) {
@@ -152,6 +305,71 @@ func c22FGGen(r *vhRng) string {
 		ws, n := weights()
 		return fmt.Sprintf("fgfin %s %d", ws, r.Intn(n+1))
 	}
+}
+
+// c22FGGenRound: weighted voters over a small tree; most voters follow one chain, some vote for forks, a few
+// equivocate; precommits from a part of the voters.
+func c22FGGenRound(r *vhRng) string {
+	n := 2 + r.Intn(6)
+	ws := make([]string, n)
+	for i := range ws {
+		w := 1 + r.Intn(5)
+		switch r.Intn(8) {
+		case 0:
+			w = 0
+		case 1:
+			w = 1 + r.Intn(40)
+		case 2, 3:
+			w = 1
+		}
+		ws[i] = strconv.Itoa(w)
+	}
+	size := 2 + r.Intn(5)
+	par := make([]int, 0, size)
+	ps := make([]string, 0, size)
+	for i := 1; i < size; i++ {
+		p := i - 1
+		if r.Chance(2, 5) {
+			p = r.Intn(i)
+		}
+		par = append(par, p)
+		ps = append(ps, strconv.Itoa(p))
+	}
+	tree := "-"
+	if len(ps) > 0 {
+		tree = strings.Join(ps, ",")
+	}
+	mainB := r.Intn(size)
+	pick := func() int {
+		if r.Chance(2, 3) {
+			return mainB
+		}
+		return r.Intn(size)
+	}
+	var ops []string
+	for v := 0; v < n; v++ {
+		if r.Chance(9, 10) {
+			ops = append(ops, fmt.Sprintf("pv %d %d", v, pick()))
+			if r.Chance(1, 8) {
+				ops = append(ops, fmt.Sprintf("pv %d %d", v, r.Intn(size)))
+			}
+		}
+	}
+	for v := 0; v < n; v++ {
+		if r.Chance(3, 4) {
+			ops = append(ops, fmt.Sprintf("pc %d %d", v, pick()))
+			if r.Chance(1, 8) {
+				ops = append(ops, fmt.Sprintf("pc %d %d", v, r.Intn(size)))
+			}
+		}
+	}
+	for i := len(ops) - 1; i > 0; i-- {
+		if r.Chance(1, 2) {
+			j := r.Intn(i + 1)
+			ops[i], ops[j] = ops[j], ops[i]
+		}
+	}
+	return fmt.Sprintf("fgrnd w=%s tree=%s|%s", strings.Join(ws, ","), tree, strings.Join(ops, ";"))
 }
 
 func TestVerifC22FG(t *testing.T) { vhMain(t, c22FGGen, c22FGRun) }
